@@ -66,7 +66,8 @@ def gen_value(yaml, rng, allow_map=True):
 def gen_item(yaml, rng, key_attr, val_attr, key_value, style):
     """an item mapping; style selects well-formed or broken variants"""
     pairs = []
-    extra = rng.sample(['description', 'price', 'other', 'note'], rng.randint(0, 3))
+    extra = rng.sample(['description', 'price', 'other', 'note', '', 'id', 'item'], rng.randint(0, 3))
+    extra = [x for x in extra if x != key_attr]
     names = [key_attr] + extra
     if val_attr is not None and rng.random() < 0.7 and val_attr not in names:
         names.append(val_attr)
@@ -95,7 +96,7 @@ def gen_item(yaml, rng, key_attr, val_attr, key_value, style):
 def gen_case(yaml, rng):
     attr = rng.choice(['items', 'list1', 'index1'])
     key_attr = rng.choice(['item_id', 'name', 'id'])
-    val_attr = rng.choice([None, 'price', 'description', 'absent'])
+    val_attr = rng.choice([None, 'price', 'description', 'absent', '', 'id'])
     kind = rng.choice(['seq', 'seq', 'map', 'map', 'index', 'index', 'scalar', 'seqscalar', 'mixedseq',
                        'mixedmap', 'missing', 'empty-seq', 'empty-map'])
     style = rng.choice(['ok'] * 8 + ['nokey', 'intkey', 'seqkey', 'dupattr', 'mapvalue', 'dupkeys'])
